@@ -132,6 +132,7 @@ def gen_case(rng, gens=GENERATORS, max_total=6):
             slates = reorder(slates)
             props = reorder(props)
     case.update(slates=slates, props=props, cohesion=cohesion, intervals=intervals)
+    case["decoy"] = rng.random() < 0.3
     if rng.random() < 0.12:
         # construct through BallotGenerator.from_params: intervals drawn from Dirichlet(alpha) via numpy's default_rng
         # (OS entropy unless patched -- the seam that makes this repeatable)
@@ -161,7 +162,40 @@ def _directional(v, c):
 DISTANCES = {"l1": _l1, "directional": _directional}
 
 
+_DECOYS = []
+
+
+def decoy_case(case):
+    """same generator class, same bloc / slate / candidate names, different numbers: cohesion rows, interval values and
+    proportions reversed.  A second live generator built from it must not change what the first one samples."""
+    d = {k: v for k, v in case.items() if k not in ("decoy", "_drawn_intervals")}
+
+    def rev(m):
+        ks = list(m)
+        return dict(zip(ks, [m[k] for k in reversed(ks)]))
+
+    d["cohesion"] = {b: rev(row) for b, row in case["cohesion"].items()}
+    d["intervals"] = {b: {s: rev(iv) for s, iv in dd.items()} for b, dd in case["intervals"].items()}
+    if case["gen"] != "CambridgeSampler":
+        d["props"] = rev(case["props"])
+    return d
+
+
 def build(case):
+    """-> thunk that generates the profile.  With case['decoy'], a second generator of the same class and names but other
+    parameters is constructed AFTER the first and kept alive while the first one samples (two live generators: any table kept
+    on the class, in a module global or in a shared default argument shows)."""
+    fn = _build(case)
+    if case.get("decoy") and "slates" in case and not case.get("from_params"):
+        del _DECOYS[:]
+        try:
+            _DECOYS.append(_build(decoy_case(case)))
+        except Exception:
+            pass
+    return fn
+
+
+def _build(case):
     """-> callable producing the generator's raw output; raises whatever the real code raises"""
     import numpy as np
     import votekit.ballot_generator as bg
